@@ -34,6 +34,13 @@ __CPROVER_ensures(__CPROVER_return_value == 0 ==> (g_k < n ==> a[g_k] == b[g_k])
 __CPROVER_ensures(__CPROVER_return_value != 0 ==> (g_diff < n && a[g_diff] != b[g_diff] && (g_k < g_diff ==> a[g_k] == b[g_k]) &&
                   ((__CPROVER_return_value < 0) == (UC(a[g_diff]) < UC(b[g_diff])))));
 
+/* std::lexicographical_compare over plain char ranges: element comparison is the built-in (signed) char < (assumed contract) */
+bool xc_lex_compare_cc(const char *f1, const char *l1, const char *f2, const char *l2)
+__CPROVER_requires(__CPROVER_r_ok(f1, l1 - f1) && __CPROVER_r_ok(f2, l2 - f2))
+__CPROVER_assigns(g_diff)
+__CPROVER_ensures(__CPROVER_return_value ==> ((g_diff < (size_t)(l1 - f1) && g_diff < (size_t)(l2 - f2) && f1[g_diff] < f2[g_diff] && (g_k < g_diff ==> f1[g_k] == f2[g_k])) ||
+                  ((l1 - f1) < (l2 - f2) && (g_k < (size_t)(l1 - f1) ==> f1[g_k] == f2[g_k]))));
+
 const char *xc_traits_find(const char *p, size_t n, char ch)
 __CPROVER_requires(__CPROVER_r_ok(p, n))
 __CPROVER_assigns()
@@ -42,7 +49,7 @@ __CPROVER_ensures(__CPROVER_return_value != NULL ==> __CPROVER_pointer_in_range_
 __CPROVER_ensures(__CPROVER_return_value != NULL ==> (__CPROVER_return_value < p + n && *__CPROVER_return_value == ch &&
                   ((POFF(p) <= g_off && g_off < POFF(__CPROVER_return_value)) ==> PTR_OBJ_AT(p, g_off) != ch)));
 """
-assumed_contracts = {"xc_traits_compare": "std::char_traits<char>::compare == memcmp (C++ standard)",
+assumed_contracts = {"xc_lex_compare_cc": "std::lexicographical_compare with the built-in char comparison (C++ standard)", "xc_traits_compare": "std::char_traits<char>::compare == memcmp (C++ standard)",
                      "xc_traits_find": "std::char_traits<char>::find == memchr (C++ standard)"}
 
 
@@ -104,12 +111,12 @@ contracts.update({
         "__CPROVER_ensures(__CPROVER_old(self->ptr_) != NULL ==> __CPROVER_was_freed(__CPROVER_old(self->ptr_)))\n" % {"r": RET}},
 })
 
-SH = ["xc_traits_compare", "xc_traits_find"]
+SH = ["xc_traits_compare", "xc_traits_find", "xc_lex_compare_cc"]
 proofs = [
     Proof("sv_eq", [("nostd::operator==", 2, "bool (nostd::string_view, nostd::string_view)")], enforce=common.SV_EQ),
     Proof("sv_substr", [("string_view::substr", 2)], enforce="string_view_substr"),
     Proof("sv_compare", [("string_view::compare", 1, "int (nostd::string_view")], enforce="string_view_compare", replace=SH),
-    Proof("sv_lt", [("string_view::operator<", 1)], enforce="string_view_op_lt", replace=["string_view_compare"]),
+    Proof("sv_lt", [("string_view::operator<", 1)], enforce="string_view_op_lt", replace=["string_view_compare"] + SH),
     Proof("sv_find", [("string_view::find", 2)], enforce="string_view_find", replace=SH),
     Proof("span_fixed_ctor", [("span<unsigned char, 4>::span", 2, "unsigned char *, size_t")], enforce="span_u8_4_ctor"),
     Proof("span_fixed_index", [("span<unsigned char, 4>::operator[]", 1)], enforce="span_u8_4_op_index"),
